@@ -224,7 +224,7 @@ def render(header, rows, corrupt):
             out.append(','.join(['"%s,%s"' % (r[0], r[1])] + r[2:]))
         else:
             out.append(','.join(r))
-    return '\n'.join(out) + '\n'
+    return '\n'.join(out) + ('' if corrupt.get('no-final-newline') else '\n')
 
 
 def shard_exhaustive(sh, part, parts):
@@ -249,7 +249,10 @@ def shard_exhaustive(sh, part, parts):
         mine = mine[::2] if len(mine) > 700 else mine
     for t, (n, B, sub, pos, kind) in enumerate(mine):
         rows = rows_by_n[n]
-        text = render(header, rows, {p: kind for p in (pos or ())})
+        cmap = {p: kind for p in (pos or ())}
+        if t % 2 == 1 and n > 0 and kind != 'empty':
+            cmap['no-final-newline'] = True        # last row not terminated
+        text = render(header, rows, cmap)
         ok, res, rec, lg, final_cp = run_library(sh, text, header, B, sub, 'max-value-coverage', False, 'e%d' % part)
         if not ok:
             continue
@@ -319,6 +322,8 @@ def shard_boundary(sh, part, parts):
         if rng.random() < 0.7:
             n_file += n_invalid * sub
         rows = make_rows(nprng, rng, n_file, ncols)
+        if rng.random() < 0.4 and (n_file - 1) not in corrupt:
+            corrupt['no-final-newline'] = True
         text = render(header, rows, corrupt)
         gz = rng.random() < 0.3
         heuristic = rng.choice(['max-value-coverage', 'MI-numba-randomized'])
@@ -326,8 +331,8 @@ def shard_boundary(sh, part, parts):
         if not ok:
             continue
         mb, remaining, tail_used, invalid = verify_run(sh, text, header, B, sub, rec, lg, final_cp, res[1],
-                                                       {'file_rows': n_file, 'B': B, 'subsampling': sub, 'style': style, 'gz': gz, 'corrupt': sorted(corrupt.items())[:10]})
-        sh.case((n_file, B, sub, invalid, core.h64(sorted(corrupt.items()))), len(mb) >= 2 or 1023 <= remaining <= 1025,
+                                                       {'file_rows': n_file, 'B': B, 'subsampling': sub, 'style': style, 'gz': gz, 'corrupt': sorted(map(str, corrupt.items()))[:10]})
+        sh.case((n_file, B, sub, invalid, core.h64(sorted(map(str, corrupt.items())))), len(mb) >= 2 or 1023 <= remaining <= 1025,
                 'boundary/B=%d/tail=%s/%s' % (B, 'used' if tail_used else ('dropped' if remaining else 'none'), style),
                 sample={'file_rows': n_file, 'B': B, 'subsampling': sub, 'gz': gz, 'style': style, 'batches': [len(b) for b in mb], 'remaining_rows': remaining, 'tail_used': tail_used, 'invalid': invalid})
 
@@ -344,12 +349,14 @@ def shard_task(sh, part):
         nb = rng.choice([2, 3, 4]) if B < 1000 else 1
         tail = rng.choice([0, 1, B - 1]) if B < 1000 else rng.choice([1024, 1025])
         n_file = (nb * B + tail) * sub
-        ncols = rng.randint(3, 5)
+        ncols = 3 + (run + part) % 3
         header = ['c%d' % i for i in range(ncols - 1)] + ['label']
         rows = make_rows(nprng, rng, n_file, ncols)
-        corrupt = {p: rng.choice(['short', 'long', 'empty']) for p in rng.sample(range(n_file), 3)}
+        corrupt = {p: rng.choice(['short', 'long', 'empty']) for p in rng.sample(range(n_file - 1), 3)}
+        if run % 2 == 0:
+            corrupt['no-final-newline'] = True
         text = render(header, rows, corrupt)
-        dpath = os.path.join(cwd, 'data-%d' % run)
+        dpath = os.path.join(cwd, 'data')            # the same data path for every run of this process: the file (and its header) is regenerated
         os.makedirs(dpath, exist_ok=True)
         with open(os.path.join(dpath, 'data.csv'), 'w', newline='') as f:
             f.write(text)
